@@ -71,7 +71,7 @@ pub fn run() {
                         let mut v = vec![];
                         for a in &cs {
                             for b in &cs {
-                                let d = if *metric == "cie76" { a.distance_delta_e_cie76(b) } else { a.distance_delta_e_ciede2000(b) };
+                                let d = if *metric == "cie76" { pastel::delta_e::cie76(&a.to_lab(), &b.to_lab()) } else { pastel::delta_e::ciede2000(&a.to_lab(), &b.to_lab()) };
                                 v.push(((d * 1000.0) as i32).to_string());
                             }
                         }
@@ -87,7 +87,8 @@ pub fn run() {
                 let mut v: Vec<(f64, String)> = vec![];
                 for i in 0..t.len() {
                     for j in (i + 1)..t.len() {
-                        let d = t[i].color.distance_delta_e_ciede2000(&t[j].color);
+                        let (la, lb) = (t[i].color.to_lab(), t[j].color.to_lab());
+                        let d = crate::sharma::ciede2000([la.l, la.a, la.b], [lb.l, lb.a, lb.b]);
                         if t[i].color.to_rgba() != t[j].color.to_rgba() && d < thr {
                             let (a, b) = (t[i].color.to_rgba(), t[j].color.to_rgba());
                             v.push((d, format!("{}:{}:{}:{}:{}:{}", a.r, a.g, a.b, b.r, b.g, b.b)));
